@@ -214,8 +214,9 @@ def container_faults(ctx, base, index_offset):
         blob = f.read()
     ext = os.path.splitext(base.data_path)[1]
     path = os.path.join(base.dir, "damaged" + ext)
-    step = 1 if base.kind in ("delimited", "fixed") else (7 if ctx.tier == "thorough" else 61)
-    replacements = [0xFF, 0x00, ord('"'), ord("\n")] if base.kind in ("delimited", "fixed") else [0xFF, 0x00]
+    # text containers and the (small) ODS archive: every offset; the larger XLSX archive is sampled
+    step = 1 if base.kind in ("delimited", "fixed", "ods") else (3 if ctx.tier == "thorough" else 23)
+    replacements = [0xFF, 0x00, ord('"'), ord("\n")] if base.kind in ("delimited", "fixed") else [0xFF, 0x00, 0x01, 0x40]
     faults = []
     for offset in range(0, len(blob), step):
         faults.append(("truncate", offset, None))
